@@ -96,8 +96,7 @@ def with_build_env(prop, cases):
     extra = []
     for c in picked[:n]:
         d = copy.deepcopy(c)
-        d["env"] = "build_script"
-        d["family"] = str(d.get("family", "")) + "+build_script_env"
+        d["env"] = "build_script"       # (the family name stays: verdicts may depend on it; the evidence histogram adds the suffix)
         d.pop("id", None)
         extra.append(d)
     return cases + extra
@@ -427,7 +426,10 @@ def main(prop_name, tier, seed, replay=None):
     feats = {}
     fams = {}
     for r in evaluated:
-        fams[r["case"].get("family", "?")] = fams.get(r["case"].get("family", "?"), 0) + 1
+        fam_ = str(r["case"].get("family", "?"))
+        if r["case"].get("env") == "build_script" and not fam_.endswith("+build_script_env"):
+            fam_ += "+build_script_env"
+        fams[fam_] = fams.get(fam_, 0) + 1
         for f in r["res"].get("features") or []:
             feats[f] = feats.get(f, 0) + 1
         if prop.nontrivial(r["case"], r["res"]):
